@@ -17,7 +17,7 @@ for d in "$@"; do
   git -C $L/repo checkout -q -- . 
   git -C $L/repo apply $d/patch.diff || { echo "RESULT patch=$name APPLY-FAILED"; continue; }
   (cd $L/verif/harness && cargo build --release --offline > $L/build.log 2>&1) || { echo "RESULT patch=$name BUILD-FAILED"; tail -5 $L/build.log; git -C $L/repo checkout -q -- .; continue; }
-  for tier in quick thorough; do
+  for tier in ${TIERS:-quick thorough}; do
     rm -rf $L/verif/replays
     s=$(date +%s)
     timeout 5400 $L/verif/harness/target/release/fv $id --tier $tier --seed ${SEED:-1} > $L/out_${name}_$tier.txt 2>&1
